@@ -511,6 +511,111 @@ def reference_remap(root, visit):
     return out
 
 
+# --------------------------------------------------------------------------- custom enter / exit callbacks
+
+ENTERS = [['dflt'], ['skipKind', 't'], ['skipKind', 'd'], ['skipKind', 'l'], ['skipKind', 'f'], ['rev'],
+          ['skipKey', 0], ['skipKey', 'a'], ['skipKey', None], ['asList'], ['depthLimit', 0], ['depthLimit', 1],
+          ['depthLimit', 2]]
+EXITS = [['dflt'], ['count'], ['keys'], ['pathLen'], ['keyOld'], ['oldKind']]
+
+
+def same_atom(a, b):
+    return type(a) is type(b) and a == b
+
+
+def own_exit(old_or_new, new_items):
+    """what default_exit is documented to do, written independently: a container of the given object's class"""
+    kd = kind_of(old_or_new)
+    if kd == 'd':
+        return dict(new_items)
+    return KINDS[kd](v for _k, v in new_items)
+
+
+def make_enter(spec):
+    """a user-written enter callback (does not call boltons' default_enter)"""
+    name = spec[0]
+    lit = dec(spec[1]) if name == 'skipKey' else None
+
+    def en(path, key, value):
+        kd = kind_of(value)
+        if kd is None:
+            return value, False
+        if name == 'skipKind' and kd == spec[1]:
+            return value, False
+        if name == 'depthLimit' and len(path) >= spec[1]:
+            return value, False
+        items = children(value)
+        if name == 'rev':
+            return KINDS[kd](), reversed(items)
+        if name == 'skipKey':
+            return KINDS[kd](), [(k, c) for k, c in items if not same_atom(k, lit)]
+        if name == 'asList':
+            return [], iter(items)
+        return KINDS[kd](), items
+    return en
+
+
+def make_exit(spec):
+    name = spec[0]
+
+    def ex(path, key, old_parent, new_parent, new_items):
+        if name == 'dflt':
+            return own_exit(new_parent, new_items)
+        if name == 'count':
+            return len(new_items)
+        if name == 'keys':
+            return [k for k, _v in new_items]
+        if name == 'pathLen':
+            return len(path)
+        if name == 'keyOld':
+            return (key, len(old_parent), own_exit(new_parent, new_items))
+        if name == 'oldKind':
+            return own_exit(old_parent, new_items)
+        raise AssertionError(name)
+    return ex
+
+
+def reference_remap_custom(root, visit, enter, exit_):
+    """the bottom-up recursive rebuild with custom enter / exit callbacks, for acyclic object graphs: a container is
+    rebuilt once (remembered by identity) and its rebuilt counterpart reused wherever it is referenced again"""
+    memo = {}
+
+    def value(v, path, key):
+        # `path` is the path of the parent (what enter / exit / visit of this item get)
+        if id(v) in memo and kind_of(v) is not None:
+            return memo[id(v)]
+        new_parent, items = enter(path, key, v)
+        if items is False:
+            return v
+        below = path if v is root else path + (key,)
+        new = []
+        for k, c in list(items):
+            nc = value(c, below, k)
+            r = visit(below, k, nc)
+            if r is False:
+                continue
+            if r is True:
+                r = (k, nc)
+            new.append(r)
+        out = exit_(path, key, v, new_parent, new)
+        memo[id(v)] = out
+        return out
+    new_parent, items = enter((), None, root)
+    if items is False:
+        raise Unbuildable('root not traversed')
+    return value(root, (), None)
+
+
+def enter_tok(spec):
+    if len(spec) == 1:
+        return spec[0]
+    if spec[0] == 'skipKind':
+        return 'skipKind:' + LETTER[spec[1]]
+    if spec[0] == 'depthLimit':
+        return 'depthLimit:%d' % spec[1]
+    return spec[0] + ':' + atom_s(dec(spec[1]))
+
+
 class UndefinedRebuild(Exception):
     """the recursive rebuild has no answer: a reference back to a tuple / frozenset that is still being rebuilt"""
 
@@ -665,6 +770,16 @@ class C08(Property):
             'in {atom, @0, @1}; seeded random graphs up to depth 6 with sharing pools and back references; '
             'adversarial shapes (deep chains, wide nodes, one object referenced many times, cycles through '
             'tuples, sets whose members become equal, dict key collisions, scalar and empty roots). '
+            'Round 3: mode E = remap with custom enter x exit callbacks from table-defined families (13 enters: default, '
+            'one kind not traversed, items reversed, one key pruned, new parent always a list, depth limit 0/1/2; 6 exits: '
+            'default, len(new_items), keys of new_items, len(path), (key, len(old_parent), default result), container of '
+            'the OLD parent\'s class) x 9 programs x 5 fixed shapes, and 12% of the random graphs; oracle = memoised '
+            'recursive rebuild with the same callbacks (no verdict for cyclic input, an untraversed root, or an interned '
+            'empty tuple referenced twice), correspondence with the generic Lean model on trees; research with a custom '
+            'enter (reported paths must be retrievable); get_path(default=) consistency on every reported path; every '
+            'research case with a non-empty set is followed by a twin whose oracle skips exactly the recorded set-path '
+            'defect (so its correspondence counts); whether research queries / reports the root itself is probed, not '
+            'demanded. '
             'Non-trivial = container root with at least one nested container and no harness skip; '
             'distinct = distinct (graph, program, mode).')
     ASSUMPTIONS = [
@@ -677,21 +792,99 @@ class C08(Property):
         'a raising callback raises one of 12 builtin exception classes (not TypeError, which remap itself uses '
         'for a scalar root); the model only knows "the callback raised", the oracle demands the same class',
         'visit / query callbacks are pure programs from the table-defined family, evaluated identically by the '
-        'harness (Python) and the model (Lean); custom enter / exit callbacks are outside (the tree-level theorem '
-        'is generic in exit)',
+        'harness (Python) and the model (Lean); custom enter / exit callbacks are the table-defined families of mode E '
+        '(written without boltons\' default_enter / default_exit), modelled at tree level with reraise_visit=False '
+        'semantics; on shared acyclic graphs they are judged by the oracle only',
+        'whether research() hands the root object itself to the query and reports it under (None,) is a convention the '
+        'statement leaves free: probed once per run on the implementation and handed to the model',
         'set iteration order is taken from the real set object (passed to the model as the item order); rebuilt '
         'sets are compared as sets',
         'identity of empty tuples / frozensets is not observed (CPython shares the empty tuple)',
     ]
     CORRESPONDENCE_NAME = 'C08.Driver (remap/research/get_path models, heap + tree + recursion) vs boltons.iterutils'
 
+    # ------------------------------------------------------------------ translator: facts of the current source
+    def regen(self):
+        """Facts about default_enter / default_exit / the keyword defaults that the Lean model builds in, EVALUATED on the
+        current source (never pattern-matched: any equivalent rewrite gives the same tables).  Props.lean proves
+        that the model's own default callbacks produce exactly these tables (`default_enter_table_matches_model`,
+        `default_exit_table_matches_model`, `keyword_defaults_match_model`)."""
+        from boltons.iterutils import default_enter, default_exit, remap, research
+
+        def ktok(k):
+            return 'n' if k is None else ('i%d' % k if type(k) is int else 's:' + k)
+
+        def lst(xs):
+            return '[' + ', '.join('"%s"' % x for x in xs) + ']'
+        samples = [('none', None), ('int', 5), ('str', 'ab'), ('bytes', b'ab'), ('float', 1.5), ('bool', True),
+                   ('other', Ellipsis), ('dict', {'a': 5, None: 6}), ('list', [5, 6]), ('tuple', (5, 6)),
+                   ('set', {5, 6}), ('fset', frozenset({5, 6}))]
+        rows = []
+        for name, v in samples:
+            np_, items = default_enter((), None, v)
+            if items is False:
+                rows.append('("%s", false, "", [])' % name)
+            else:
+                keys = [ktok(k) for k, _c in list(items)]
+                rows.append('("%s", %s, "%s", %s)' % (name, 'true' if len(np_) == 0 else 'false',
+                                                      LETTER[kind_of(np_)], lst(keys)))
+        erows = []
+        for name, kd in (('dict', 'd'), ('list', 'l'), ('tuple', 't'), ('set', 's'), ('fset', 'f')):
+            old = KINDS[kd]([('a', 1)]) if kd == 'd' else KINDS[kd]([1])
+            out = default_exit((), None, old, KINDS[kd](), [(0, 5), (1, 6), (0, 7)])
+            erows.append('("%s", "%s")' % (name, plain(out)))
+
+        def boom(p, k, v):
+            raise ValueError('probe')
+        try:
+            remap([None], visit=boom)
+            rv = False
+        except ValueError:
+            rv = True
+        try:
+            research([None], query=boom)
+            rr = False
+        except ValueError:
+            rr = True
+        src = ('/- generated by harness/bv/props/c08.py regen() from boltons/iterutils.py (default_enter, default_exit, remap,\n'
+               '   research evaluated on fixed samples) - do not edit -/\n'
+               'namespace C08.Gen\n'
+               '/-- default_enter on one sample per leaf class / container kind: (sample, new parent is empty, its kind, keys handed out);\n'
+               '    `false, "", []` = not traversed -/\n'
+               'def enterTable : List (String × Bool × String × List String) :=\n  [%s]\n'
+               '/-- default_exit on an empty new parent of each kind with new items [(0, 5), (1, 6), (0, 7)] -/\n'
+               'def exitTable : List (String × String) :=\n  [%s]\n'
+               '/-- does a raising visit propagate when `reraise_visit` is not given?  a raising query when `reraise` is not given? -/\n'
+               'def reraiseVisitDefault : Bool := %s\n'
+               'def researchReraiseDefault : Bool := %s\n'
+               'end C08.Gen\n') % (',\n   '.join(rows), ',\n   '.join(erows), 'true' if rv else 'false',
+                                    'true' if rr else 'false')
+        return {'C08_Facts.lean': src}
+
     # ------------------------------------------------------------------ generation
     def cases(self, budget_s):
+        return self.with_twins(self.cases_main(budget_s))
+
+    @staticmethod
+    def with_twins(gen):
+        """A research case whose structure has a non-empty set / frozenset hits the recorded finding
+        C08-research-set-paths, and the runner does not count a model/implementation disagreement on a case that
+        hit a known finding.  So each such case is followed by a twin with `corr_only` set: the oracle skips the
+        entries that are exactly the recorded defect (everything else is judged as usual), the case passes the
+        oracle, and its correspondence counts."""
+        for c in gen:
+            yield c
+            if c['mode'] == 'Q' and any(kd in 'sf' and items for kd, items in c['nodes']):
+                yield dict(c, corr_only=1)
+
+    def cases_main(self, budget_s):
         rng = self.rng
         # small, diverse, adversarial families first (a slow machine cut by the budget never loses them)
         for c in self.round2_families():
             yield c
         for c in self.edge_cases():
+            yield c
+        for c in self.custom_families():
             yield c
         for c in self.adversarial(rng, 120):
             yield c
@@ -709,6 +902,9 @@ class C08(Property):
             yield self.random_case(rng, big=(i % 7 == 0))
 
     def deep_cases(self, budget_s):
+        return self.with_twins(self.deep_main(budget_s))
+
+    def deep_main(self, budget_s):
         rng = self.rng
         for c in self.adversarial(rng, 300):
             yield c
@@ -833,6 +1029,40 @@ class C08(Property):
                         yield mk(nodes, [0], p, reraise=rr)
                         yield mk(nodes, [0], p, mode='Q', reraise=rr)
                         yield mk(nodes, [0], [[0, ['isInt'], ['incr']]] + p, reraise=rr)
+
+    def custom_families(self):
+        """custom enter / exit callbacks (mode E): fixed shapes x every enter x every exit x programs"""
+        shapes = [
+            # {'a': [1, (None, 2)], None: (), 'b': {'x': {7, 8}}}
+            ([['d', [['a', [1]], [None, [3]], ['b', [4]]]], ['l', [1, [2]]], ['t', [None, 2]], ['t', []],
+              ['d', [['x', [5]]]], ['s', [7, 8]]], [0]),
+            # [(1, [2, {'k': ()}]), [], {0: 'z'}]
+            ([['l', [[1], [5], [6]]], ['t', [1, [2]]], ['l', [2, [3]]], ['d', [['k', [4]]]], ['t', []], ['l', []],
+              ['d', [[0, 'z']]]], [0]),
+            # (frozenset({1, 2}), [[[5]]], {'a': {'a': {'a': 1}}})
+            ([['t', [[1], [2], [5]]], ['f', [1, 2]], ['l', [[3]]], ['l', [[4]]], ['l', [5]],
+              ['d', [['a', [6]]]], ['d', [['a', [7]]]], ['d', [['a', 1]]]], [0]),
+            # x = [1]; [x, (x,), {'k': x}]   (shared: oracle-only)
+            ([['l', [[1], [2], [3]]], ['l', [1]], ['t', [[1]]], ['d', [['k', [1]]]]], [0]),
+            # [(), ()]: CPython has one empty tuple - it is rebuilt (exited) once
+            ([['l', [[1], [2]]], ['t', []], ['t', []]], [0]),
+        ]
+        progs = [([], 1), ([[0, ['isInt'], ['incr']]], 1), ([[0, ['isNone'], ['drop']]], 1),
+                 ([[0, ['keyIs', 0], ['drop']]], 1), ([[0, ['always'], ['valDepth']]], 1),
+                 ([[0, ['isCont'], ['valLen']]], 1), ([[0, ['isNone'], ['raise', 'KeyError']]], 0),
+                 ([[0, ['isNone'], ['raise', 'IndexError']]], 1), ([[0, ['isKind', 't'], ['setKey', 'k']]], 1)]
+        for nodes, root in shapes:
+            for en in ENTERS:
+                for prog, rr in progs[:4] + progs[6:8]:
+                    c = self.mk(nodes, root, prog, mode='Q', reraise=rr)
+                    c['enter'] = en
+                    yield c
+                for ex in EXITS:
+                    for prog, rr in progs:
+                        c = self.mk(nodes, root, prog, mode='E', reraise=rr, default=1 if not prog else 0)
+                        c['enter'] = en
+                        c['exit'] = ex
+                        yield c
 
     def tree_values(self, depth, atoms):
         """all (nodes-free) nested literal values of the given depth bound, as python-ish specs"""
@@ -1003,10 +1233,16 @@ class C08(Property):
         p_share = rng.choice([0.0, 0.1, 0.3])
         p_back = rng.choice([0.0, 0.0, 0.15, 0.3])
         nodes, root = self.random_graph(rng, depth, width, p_share, p_back)
-        mode = 'Q' if rng.random() < 0.25 else 'M'
+        r = rng.random()
+        mode = 'Q' if r < 0.25 else ('E' if r < 0.37 else 'M')
         prog = self.random_prog(rng)
         default = 1 if (mode == 'M' and not prog and rng.random() < 0.7) else 0
         c = self.mk(nodes, root, prog, mode=mode, reraise=0 if rng.random() < 0.2 else 1, default=default)
+        if mode == 'E':
+            c['enter'] = rng.choice(ENTERS)
+            c['exit'] = rng.choice(EXITS)
+        elif mode == 'Q' and rng.random() < 0.2:
+            c['enter'] = rng.choice(ENTERS)
         if rng.random() < 0.04:
             c['warm'] = self.random_prog(rng)
         return c
@@ -1083,9 +1319,40 @@ class C08(Property):
         r, nodes, is_tree = walk(root)
         prog = case['prog']
         tree = 1 if (is_tree and is_ref(r) and not (case['reraise'] and has_act(prog, 'raise'))) else 0
-        toks = [case['mode'], str(case['reraise']), str(tree), prog_tok(prog), 'R' + obj_tok(r)]
+        mode = case['mode']
+        if mode == 'Q' and case.get('enter', ['dflt']) != ['dflt']:
+            return None        # research with a custom enter callback: oracle-only
+        if mode == 'Q' and not self.research_queries_root():
+            mode = 'Qn'
+        if mode == 'E':
+            if not tree or any(kd in 'sf' and any(is_ref(o) for o in items) for kd, items in nodes):
+                # custom callbacks are modelled at tree level (reraise_visit=False semantics); a container inside
+                # a set may be rebuilt as something unhashable by a custom exit (TypeError): oracle-only
+                return None
+            mode = 'E~%s~%s' % (enter_tok(case['enter']), case['exit'][0])
+        toks = [mode, str(case['reraise']), str(tree), prog_tok(prog), 'R' + obj_tok(r)]
         toks += [node_tok(nd) for nd in nodes]
         return ' '.join(toks)
+
+    def research_queries_root(self):
+        """Does research() hand the root object itself to the query (and report it under the path (None,))?
+        The statement speaks about nested items only, so either convention is fine: it is read off the
+        implementation once per run and handed to the model (mode token Q / Qn); the theorems hold for both."""
+        r = self.__dict__.get('_rootq')
+        if r is None:
+            r = True
+            try:
+                from boltons.iterutils import research
+                seen = []
+                probe = [[], {'a': ()}]
+                with time_limit(2):
+                    research(probe, query=lambda p, k, v: seen.append(v) or False)
+                r = any(v is probe for v in seen)
+            except BaseException:
+                r = True
+            self._rootq = r
+            self.stats['research_queries_root'] = int(r)
+        return r
 
     def tree_flag(self, case):
         ln = self.line(case)
@@ -1100,6 +1367,7 @@ class C08(Property):
         before = labelled(root)
         in_containers = containers_of(root)
         prog = case['prog']
+        self._custom = {'enter': case.get('enter', ['dflt']), 'exit': case.get('exit', ['dflt'])}
         hits = {}
         obs = {}
         try:
@@ -1136,7 +1404,7 @@ class C08(Property):
             return '!' + o['exc']
         if 'res' in o:
             return o['res']
-        return ';'.join('%s>%s:%s' % (p, s, st) for p, s, st, _ in o.get('entries', [])) or '-'
+        return ';'.join('%s>%s:%s' % (p, s, st) for p, s, st, _ in o.get('entries', []) if st != 'root') or '-'
 
     def one_call(self, mode, root, in_containers, prog, default, reraise, hits, light=False):
         """one remap / research(+get_path) call on the real code -> observation (CaseTimeout passes through)"""
@@ -1144,7 +1412,20 @@ class C08(Property):
         fn = make_fn(prog, hits)
         obs = {}
         try:
-            if mode == 'M':
+            if mode == 'E':
+                kw = {}
+                if self._custom['enter'][0] != 'dflt':
+                    kw['enter'] = make_enter(self._custom['enter'])
+                if self._custom['exit'][0] != 'dflt':
+                    kw['exit'] = make_exit(self._custom['exit'])
+                if not reraise:
+                    kw['reraise_visit'] = False
+                res = remap(root, fn, **kw) if prog or not default else remap(root, **kw)
+                obs['res'] = labelled(res)
+                if light:
+                    return obs
+                obs['plain'] = plain(res) if not has_cycle(res) else None
+            elif mode == 'M':
                 if default:
                     res = remap(root)
                 elif reraise:
@@ -1161,7 +1442,10 @@ class C08(Property):
                 if keeps_everything(prog) and kind_of(root) is not None:
                     obs['copy_diff'] = tuple_backref_witness(root, res)
             else:
-                found = research(root, query=fn, reraise=bool(reraise))
+                if self._custom['enter'][0] != 'dflt':
+                    found = research(root, query=fn, reraise=bool(reraise), enter=make_enter(self._custom['enter']))
+                else:
+                    found = research(root, query=fn, reraise=bool(reraise))
                 entries = []
                 for path, value in found:
                     shallow = atom_s(value) if kind_of(value) is None else '%s%d' % (LETTER[kind_of(value)], len(value))
@@ -1180,8 +1464,17 @@ class C08(Property):
                             raise
                         except Exception as e:
                             status = 'exc:' + exc_name(e)
+                        # get_path(root, path, default): the default replaces the PathAccessError, nothing else
+                        try:
+                            d = get_path(root, path, default=ROOT)
+                            if (status == 'err') != (d is ROOT) or (status == 'ok' and d is not g):
+                                status = 'dflt:' + status
+                        except CaseTimeout:
+                            raise
+                        except Exception as e:
+                            status = 'dflt-exc:' + exc_name(e)
                     entries.append(['/'.join(key_s(a) for a in path), shallow, status,
-                                    1 if self.path_hits_set(root, path) else 0])
+                                    self.set_path_kind(root, path, value)])
                 obs['entries'] = entries
         except CaseTimeout:
             raise
@@ -1190,20 +1483,32 @@ class C08(Property):
         return obs
 
     @staticmethod
-    def path_hits_set(root, path):
-        """does following `path` index into a set / frozenset (the parent of some segment is one)?"""
+    def set_path_kind(root, path, value):
+        """0: following `path` never indexes into a set / frozenset.  1: it does, and reading each such
+        segment as the member's enumerate() index (what default_enter hands out as its key) leads to exactly the
+        reported value - the recorded defect C08-research-set-paths and nothing else.  2: it does, but the path
+        does not lead to the reported value even under that reading (some other defect)."""
         cur = root
+        hit = 0
         for seg in path:
             kd = kind_of(cur)
-            if kd in ('s', 'f'):
-                return True
             if kd is None:
-                return False
+                return 2 if hit else 0
             try:
-                cur = cur[seg]
+                if kd in ('s', 'f'):
+                    hit = 1
+                    if type(seg) is not int or not 0 <= seg < len(cur):
+                        return 2
+                    cur = list(cur)[seg]
+                else:
+                    cur = cur[seg]
             except Exception:
-                return False
-        return False
+                return 2 if hit else 0
+        if not hit:
+            return 0
+        same = cur is value or (is_atom(cur) and is_atom(value) and type(cur) is type(value) and cur == value) \
+            or (kind_of(cur) in ('t', 'f') and kind_of(cur) == kind_of(value) and len(cur) == 0 and len(value) == 0)
+        return 1 if same else 2
 
     def render(self, case, obs):
         tree = self.tree_flag(case)
@@ -1214,12 +1519,17 @@ class C08(Property):
             if obs['exc'] in raise_names(case['prog']):
                 h = '!ValueError'        # the model's token for "the visit callback raised"
             m = ' M=' + h if case['mode'] == 'M' else ''
+            if case['mode'] == 'E':
+                return 'G=%s R=%s' % (h, h)
             return 'H=%s%s T=%s R=%s' % (h, m, h if tree else '-', h if tree else '-')
+        if case['mode'] == 'E':
+            return 'G=%s R=%s' % (obs['plain'], obs['plain'])
         if case['mode'] == 'M':
             h = obs['res']
             t = obs['plain'] if tree else '-'
             return 'H=%s M=%s T=%s R=%s' % (h, h, t, t)
-        ents = ';'.join('%s>%s:%s' % (p, s, st) for p, s, st, _ in obs['entries']) or '-'
+        # the root's own entry ((None,), root) - reported or not - is not something the statement constrains
+        ents = ';'.join('%s>%s:%s' % (p, s, st) for p, s, st, _ in obs['entries'] if st != 'root') or '-'
         return 'H=%s T=%s R=%s' % (ents, ents if tree else '-', ents if tree else '-')
 
     # ------------------------------------------------------------------ oracle (independent of the model)
@@ -1253,6 +1563,8 @@ class C08(Property):
         self.bump('root:' + rk)
         self._nt = n_cont >= 2
         raising = bool(case['reraise']) and has_act(prog, 'raise')
+        if case['mode'] == 'E':
+            return self.oracle_custom(case, obs, root, cyclic, raising)
         if case['mode'] == 'M':
             if 'exc' in obs:
                 self.bump('exc:' + obs['exc'])
@@ -1311,18 +1623,70 @@ class C08(Property):
                     return Failure('deep_copy', 'default remap is not an equal copy: %s -> %s' % (labelled(root), obs['res']))
             return None
         # research
+        if 'enter' in case and make_enter(case['enter'])((), None, root)[1] is False:
+            self.bump('custom_root_not_traversed')
+            return None        # enter does not traverse the root: outside the statement
         if 'exc' in obs:
             self.bump('exc:' + obs['exc'])
             if raising and obs['exc'] in raise_names(prog):
                 return None
             return Failure('raises', 'research raised %s' % obs['exc'])
+        if 'enter' in case:
+            # research with a custom enter callback: the statement constrains the reported paths only (retrievable
+            # with get_path) - which items a custom enter makes research report is not judged
+            self.bump('research_enter:' + case['enter'][0])
+        set_fail = None
         for p, s, st, into_set in obs['entries']:
             if st in ('root', 'ok'):
+                continue      # 'root': the root itself under (None,) is not a nested item - reported or not
+            if into_set == 1 and st == 'err':
+                # exactly the recorded defect: the path names a set member by its enumerate() index, the reported
+                # value IS that member, and get_path raises PathAccessError.  Any other failing entry of the same
+                # call takes precedence (it is a different defect).
+                if set_fail is None and not case.get('corr_only'):
+                    set_fail = Failure('research_set_path', 'research reported path %s (value %s) but get_path '
+                                       'cannot follow it into a set/frozenset (%s)' % (p, s, st))
                 continue
-            if into_set:
-                return Failure('research_set_path', 'research reported path %s (value %s) but get_path cannot follow '
-                               'it into a set/frozenset (%s)' % (p, s, st))
-            return Failure('research_path', 'research reported path %s (value %s) but get_path gives %s' % (p, s, st))
+            return Failure('research_path', 'research reported path %s (value %s) but get_path gives %s%s'
+                           % (p, s, st, ' (the path leads into a set/frozenset, but not to that value even when a '
+                                        'segment is read as the member\'s enumeration index)' if into_set == 2 else ''))
+        return set_fail
+
+    def oracle_custom(self, case, obs, root, cyclic, raising):
+        """remap with custom enter / exit callbacks = the recursive rebuild with the same callbacks"""
+        self.bump('enter:' + case['enter'][0])
+        self.bump('exit:' + case['exit'][0])
+        if cyclic:
+            return None
+        # one empty tuple / frozenset referenced from several places: "the same object" only because CPython interns
+        # it (ASSUMPTIONS: its identity is not observed) - whether a custom exit sees it once or once per reference
+        # is not judged
+        refs = {}
+        for v in containers_of(root).values():
+            for _k, c in children(v):
+                if kind_of(c) in ('t', 'f') and len(c) == 0:
+                    refs[id(c)] = refs.get(id(c), 0) + 1
+        if any(n > 1 for n in refs.values()):
+            self.bump('custom_shared_empty_immutable')
+            return None
+        prog = case['prog']
+        fn = make_fn(prog) if case['reraise'] else self.swallowing(make_fn(prog))
+        try:
+            exp = labelled(reference_remap_custom(root, fn, make_enter(case['enter']), make_exit(case['exit'])))
+        except Unbuildable:
+            # enter does not traverse the root: remap hands the root to visit and then raises TypeError - unless
+            # visit drops it, then the root itself comes back.  Outside the statement (no verdict); the model
+            # follows the code (correspondence)
+            self.bump('custom_root_not_traversed')
+            return None
+        except VISIT_EXC as e:
+            exp = '!' + exc_name(e)
+        except TypeError:
+            return None                 # the callbacks produced something unhashable inside a set: no verdict
+        got = '!' + obs['exc'] if 'exc' in obs else obs['res']
+        if got != exp:
+            return Failure('custom_callbacks', 'remap with enter=%s exit=%s returned %s, the recursive rebuild with the '
+                           'same callbacks gives %s' % (case['enter'], case['exit'], got, exp))
         return None
 
     @staticmethod
@@ -1355,13 +1719,16 @@ class C08(Property):
     # ------------------------------------------------------------------ known findings
     def finding_research_set_path(self, case, failure):
         """research reports enumeration indices for set / frozenset members; get_path cannot index a set"""
-        return failure.tag == 'research_set_path' and case['mode'] == 'Q' and \
-            getattr(failure, 'model_agrees', None) is not False
+        # keyed on the defect itself (the oracle tags a failing entry `research_set_path` only when the path names
+        # a set member by its enumeration index, the reported value is that member and get_path raises
+        # PathAccessError) - not on whether the rest of the call still looks like the model
+        return failure.tag == 'research_set_path' and case['mode'] == 'Q'
 
     def finding_tuple_cycle_backref(self, case, failure):
         """a cycle that passes through a tuple: the back reference is rebuilt as ()"""
-        return failure.tag == 'tuple_cycle_backref' and case['mode'] == 'M' and \
-            getattr(failure, 'model_agrees', None) is not False
+        # keyed on the defect itself: default callbacks, cyclic input, and the FIRST difference between input and
+        # output is an empty tuple standing where the input refers back to a tuple still being traversed
+        return failure.tag == 'tuple_cycle_backref' and case['mode'] == 'M' and keeps_everything(case['prog'])
 
     # ------------------------------------------------------------------ shrinking
     def shrink(self, case):
@@ -1371,6 +1738,13 @@ class C08(Property):
             # simplified, never removed: a defect that keeps state between calls must stay reproducible from
             # the case alone (without the warm-up call it would fail only in a process that ran other cases)
             yield dict(case, warm=[])
+        if case['mode'] == 'Q' and 'enter' in case and case['enter'] != ['dflt']:
+            yield dict(case, enter=['dflt'])
+        if case['mode'] == 'E':
+            if case['enter'] != ['dflt']:
+                yield dict(case, enter=['dflt'])
+            if case['exit'] != ['dflt']:
+                yield dict(case, exit=['dflt'])
         for i in range(len(prog)):
             yield dict(case, prog=prog[:i] + prog[i + 1:], default=0)
         for i, (kd, items) in enumerate(nodes):
